@@ -182,6 +182,33 @@ Proof.
 Qed.
 
 (** ------------------------------------------------------------------------------------------
+    Beyond quadrature: the cascade y' = g(t), z' = y on the function space bool -> R (true: y, false: z)
+    exercises the tableau's A matrix (tree conditions b.A.c^k); it is integrated exactly as long as z is a
+    polynomial of degree <= p. *)
+Ltac unfF := cbv [ROps VF vadd vsub vscale vabs n0 n1 nadd nsub nmul ndiv nopp nabs nofZ nleb nltb qz].
+Definition casc (cs:list R) : R -> (bool->R) -> (bool->R) := fun t y i => if i then poly cs t else y true.
+Definition casc0 (y0 z0:R) : bool -> R := fun i => if i then y0 else z0.
+(** exact solution after h: y0 + int g ;  z0 + h y0 + int int g *)
+Definition casc_exact (cs:list R) (t0 h y0 z0:R) : bool -> R := fun i =>
+  if i then y0 + (pint cs (t0+h) - pint cs t0)
+  else z0 + h*y0 + (pint_from 1 (map2 Rmult cs [1;1/2;1/3;1/4]) (t0+h) - pint_from 1 (map2 Rmult cs [1;1/2;1/3;1/4]) t0)
+       - h * pint cs t0.
+Ltac open_c := cbv [rk2_step rk3_step rkm_step rkf_step casc casc0 casc_exact poly pint pint_from map2 INR fst snd]; unfF.
+
+Lemma rk2_exact_on_cascade t0 h y0 z0 cs : (length cs <= 1)%nat -> forall i,
+  fst (rk2_step ROps (VF ROps bool) (casc cs) t0 (t0+h) (casc0 y0 z0) (casc cs t0 (casc0 y0 z0))) i = casc_exact cs t0 h y0 z0 i.
+Proof. intros L i. do 2 (destruct cs as [|? cs]; [destruct i; open_c; field|]). cbn in L; lia. Qed.
+Lemma rk3_exact_on_cascade t0 h y0 z0 cs : (length cs <= 2)%nat -> forall i,
+  fst (rk3_step ROps (VF ROps bool) (casc cs) t0 (t0+h) (casc0 y0 z0) (casc cs t0 (casc0 y0 z0))) i = casc_exact cs t0 h y0 z0 i.
+Proof. intros L i. do 3 (destruct cs as [|? cs]; [destruct i; open_c; field|]). cbn in L; lia. Qed.
+Lemma rkm_exact_on_cascade t0 h y0 z0 cs : (length cs <= 3)%nat -> forall i,
+  fst (rkm_step ROps (VF ROps bool) (casc cs) t0 (t0+h) (casc0 y0 z0) (casc cs t0 (casc0 y0 z0))) i = casc_exact cs t0 h y0 z0 i.
+Proof. intros L i. do 4 (destruct cs as [|? cs]; [destruct i; open_c; field|]). cbn in L; lia. Qed.
+Lemma rkf_exact_on_cascade t0 h y0 z0 cs : (length cs <= 3)%nat -> forall i,
+  fst (rkf_step ROps (VF ROps bool) (casc cs) t0 (t0+h) (casc0 y0 z0) (casc cs t0 (casc0 y0 z0))) i = casc_exact cs t0 h y0 z0 i.
+Proof. intros L i. do 4 (destruct cs as [|? cs]; [destruct i; open_c; field|]). cbn in L; lia. Qed.
+
+(** ------------------------------------------------------------------------------------------
     cubic Hermite interpolation (IntegratorRep::interpolateOrder3) *)
 Section Hermite.
 Variables (t0 t1 : R).
